@@ -88,7 +88,9 @@ class DSDLDefinition(ReadableDSDLFile):
 
         # INFERENCE 2: The next easiest inference is when the target path is relative to a known dsdl root. These
         # operations should work with pure paths and not require filesystem access.
-        resolved_dsdl_path = dsdl_path.resolve(strict=False) if dsdl_path.is_absolute() else None
+        # A relative target is compared in its resolved form only if it exists relative to the current working directory;
+        # otherwise it may still be relative to the parent of one of the roots (see inference 3).
+        resolved_dsdl_path = dsdl_path.resolve(strict=False) if (dsdl_path.is_absolute() or dsdl_path.exists()) else None
         for path_to_root in valid_dsdl_roots:
             # First we try the paths as-is...
             try:
@@ -97,8 +99,8 @@ class DSDLDefinition(ReadableDSDLFile):
                 pass
             else:
                 return path_to_root
-            # then we try resolving the root path if it is absolute
-            if path_to_root.is_absolute() and resolved_dsdl_path is not None:
+            # then we try resolving both paths if exactly one of them is relative or if the root may need normalization
+            if resolved_dsdl_path is not None and (path_to_root.is_absolute() or dsdl_path.is_absolute()):
                 path_to_root_resolved = path_to_root.resolve(strict=False)
                 try:
                     _ = resolved_dsdl_path.relative_to(path_to_root_resolved).parent
@@ -155,10 +157,17 @@ class DSDLDefinition(ReadableDSDLFile):
         :raises InvalidDefinitionError: If the file does not exist.
         """
         root_path = cls._infer_path_to_root_from_first_found(dsdl_path, valid_dsdl_roots)
+        dsdl_path_resolved = dsdl_path.resolve(strict=False)
         if not dsdl_path.is_absolute():
-            dsdl_path_resolved = (root_path.parent / dsdl_path).resolve(strict=False)
-        else:
-            dsdl_path_resolved = dsdl_path.resolve(strict=False)
+            # A relative target is either relative to the same origin as the root (then it lies under the root)
+            # or it begins with the name of the root and is relative to the directory that contains the root.
+            try:
+                _ = dsdl_path_resolved.relative_to(root_path.resolve(strict=False))
+                found_under_root = dsdl_path_resolved.exists()
+            except ValueError:
+                found_under_root = False
+            if not found_under_root:
+                dsdl_path_resolved = (root_path.parent / dsdl_path).resolve(strict=False)
         return cls(dsdl_path_resolved, root_path)
 
     def __init__(self, file_path: Path, root_namespace_path: Path):
